@@ -1,6 +1,7 @@
 //! C17: caches stay within capacity, evict least-recently-used, never serve stale data.
-//! M+S cells: LruMap (4 presets), ConcurrentLruMap (Hash routing), LruPageCache (read/prefetch/invalidate histories).
-//! S-only cells: ConcurrentLruMap RoundRobin/ThreadAffinity routing, SingleLruPageCache, CachedBlobStore (3 write strategies, own and shared cache), FsaCache.
+//! M+S cells: LruMap (4 presets), ConcurrentLruMap (Hash / RoundRobin / ThreadAffinity routing), LruPageCache (read/prefetch/invalidate histories,
+//! external rewrites with separate invalidation, close_file), SingleLruPageCache, CachedBlobStore (3 write strategies, own and shared cache).
+//! S-only cells: FsaCache, the two-thread probe of one LruMap shard.
 use crate::util::*;
 use serde_json::{json, Value};
 use std::collections::HashMap;
@@ -14,12 +15,17 @@ use zipora::containers::specialized::{
 use zipora::fsa::cache::{CacheStrategy, FsaCache, FsaCacheConfig};
 
 const HEADER: &str = r#"From ZV.Common Require Import Base Run.
-From ZV.C17 Require Import Spec Model.
+From ZV.C17 Require Import Spec Model ModelInval ModelBlob ModelRoute.
 Open Scope N_scope.
 Inductive case_t : Type :=
 | CLru (cap : N) (ops : list (N * N * N)) (expect : list (list Z))
 | CCmap (percap : N) (nshards : nat) (route : list (N * N)) (ops : list (N * N * N)) (expect : list (list Z))
-| CPc (ps capbytes : N) (fs : list (N * (N * N))) (ops : list (N * N * N * N)) (expect : list (list N)).
+| CPc (ps capbytes : N) (fs : list (N * (N * N))) (ops : list (N * N * N * N)) (expect : list (list N))
+| CPx (ps capbytes : N) (fs : list (N * (N * N))) (ops : list (N * N * N * N)) (expect : list (list N))
+| CPs (ps capbytes : N) (fs : list (N * (N * N))) (ops : list (N * N * N * N)) (expect : list (list N))
+| CBlob (ps capbytes : N) (fs : list (N * (N * N))) (rf vfid strategy : N) (ops : list (N * N * N)) (expect : list (list N))
+| CRr (percap : N) (nshards : nat) (ops : list (N * N * N)) (expect : list (list Z))
+| CTa (percap : N) (nshards : nat) (route : list (N * N)) (tops : list (N * (N * N * N))) (expect : list (list Z)).
 Fixpoint eqb_llz (a b : list (list Z)) : bool :=
   match a, b with
   | [], [] => true
@@ -37,10 +43,22 @@ Definition ok (c : case_t) : bool :=
   | CLru cap ops expect => eqb_llz (lru_case cap ops) expect
   | CCmap percap n route ops expect => eqb_llz (cmap_case percap n route ops) expect
   | CPc ps capbytes fs ops expect => eqb_lln (pc_case ps capbytes fs ops) expect
+  | CPx ps capbytes fs ops expect => eqb_lln (px_case ps capbytes fs ops) expect
+  | CPs ps capbytes fs ops expect => eqb_lln (ps_case ps capbytes fs ops) expect
+  | CBlob ps capbytes fs rf vfid strategy ops expect => eqb_lln (blob_case ps capbytes fs rf vfid strategy ops) expect
+  | CRr percap n ops expect => eqb_llz (rr_case percap n ops) expect
+  | CTa percap n route tops expect => eqb_llz (ta_case percap n route tops) expect
   end.
 "#;
 
-struct Ctx { sum: Summary, shards: CoqShards, terms: [Vec<(String, Value)>; 3], budget_lru: usize, budget_cmap: usize, budget_pc: usize, n_lru: usize, n_cmap: usize, n_pc: usize, tmp: String, fileno: u64 }
+struct Ctx { sum: Summary, shards: CoqShards, terms: Vec<Vec<(String, Value)>>, budget_lru: usize, budget_cmap: usize, budget_pc: usize, n_lru: usize, n_cmap: usize, n_pc: usize, tmp: String, fileno: u64,
+             /// budgets / counts of the cells modelled by the extension: 3 px (rewrite, close_file, read_with_prefetch), 4 ps (SingleLruPageCache), 5 blob, 6 round robin, 7 thread affinity
+             budget_x: [usize; 8], n_x: [usize; 8] }
+const T_PX: usize = 3;
+const T_PS: usize = 4;
+const T_BLOB: usize = 5;
+const T_RR: usize = 6;
+const T_TA: usize = 7;
 
 // ---------------------------------------------------------------------------------------------
 // the property, told as dumbly as possible: entries with the time of their last get/put
@@ -224,7 +242,6 @@ fn cmap_history(cx: &mut Ctx, total: usize, nshards: usize, preset: u64, strat: 
     let cell = format!("ConcurrentLruMap/{}", sname);
     let percap = total / nshards.max(1);
     cx.sum.eval(&cell, &format!("cmap {} {} {} {} {:?}", total, nshards, preset, strat, ops), ops.iter().filter(|o| o.0 == 1).count() > percap);
-    if strat != 0 { cx.sum.cell_status(&cell, "S-only"); }
     let cj = json!({"cell": "cmap", "total": total, "nshards": nshards, "preset": preset, "strategy": strat, "nkeys": nkeys, "ops": ops_json(ops)});
     let class: Option<&str> = if strat == 1 && nshards > 1 { Some("concurrent_round_robin_routing") } else { None };
     let log = Rec(Arc::new(Mutex::new(vec![])));
@@ -274,11 +291,144 @@ fn cmap_history(cx: &mut Ctx, total: usize, nshards: usize, preset: u64, strat: 
     }
 }
 
+
+/// RoundRobin routing, one implementation call per operation (every keyed call moves the global counter), compared with the
+/// Coq model of the counter.  The oracle here only demands what holds for any routing: a value returned for a key was put for
+/// that key, the total stays within the capacity, nothing is reported evicted that was never put, no operation fails.
+/// (That get(k) finds the latest put(k) is checked by cmap_history and is the recorded finding.)
+fn rr_history(cx: &mut Ctx, total: usize, nshards: usize, preset: u64, ops: &[Op], force: bool) {
+    let cell = "ConcurrentLruMap/RoundRobin";
+    let percap = total / nshards.max(1);
+    cx.sum.eval(cell, &format!("rr {} {} {} {:?}", total, nshards, preset, ops), ops.iter().filter(|o| o.0 == 1).count() > percap);
+    let cj = json!({"cell": "rr", "total": total, "nshards": nshards, "preset": preset, "ops": ops_json(ops)});
+    let log = Rec(Arc::new(Mutex::new(vec![])));
+    let m = match guarded(|| ConcurrentLruMap::<u64, u64, Rec>::with_config_and_callback(cmap_config(preset, total, nshards, 1), log.clone())) {
+        Ok(Ok(m)) => m,
+        Ok(Err(e)) => { cx.sum.fail(cell, None, cj, &format!("constructor refused a valid configuration: {:?}", e)); return; }
+        Err(p) => { cx.sum.fail(cell, None, cj, &format!("constructor panicked: {}", p)); return; }
+    };
+    let mut put_for: HashMap<u64, Vec<u64>> = HashMap::new();
+    let mut fails: Vec<String> = vec![];
+    let mut obs: Vec<Vec<i128>> = vec![];
+    let mut seen = 0usize;
+    let r = guarded(|| {
+        for &(c, k, v) in ops {
+            let known = |put_for: &HashMap<u64, Vec<u64>>, k: u64, x: Option<u64>| x.map_or(true, |x| put_for.get(&k).map_or(false, |l| l.contains(&x)));
+            let mut o: Vec<i128> = match c {
+                0 => { let g = m.get(&k); if !known(&put_for, k, g) { fails.push(format!("get({}) = {:?}, a value never put for that key", k, g)); } enc_opt(g) }
+                1 => { put_for.entry(k).or_default().push(v);
+                       match m.put(k, v) { Ok(g) => { if !known(&put_for, k, g) { fails.push(format!("put({},{}) returned previous value {:?}, never put for that key", k, v, g)); } enc_opt(g) }
+                                           Err(e) => { fails.push(format!("put({},{}) refused: {:?}", k, v, e)); vec![-1] } } }
+                2 => { let g = m.remove(&k); if !known(&put_for, k, g) { fails.push(format!("remove({}) = {:?}, a value never put for that key", k, g)); } enc_opt(g) }
+                3 => vec![m.contains_key(&k) as i128],
+                4 => { if let Err(e) = m.clear() { fails.push(format!("clear refused: {:?}", e)); }
+                       put_for.clear();   // nothing put before a clear may come back
+                       if m.len() != 0 { fails.push(format!("len() = {} right after clear()", m.len())); }
+                       vec![0] }
+                _ => { let n = m.len(); if n > percap * nshards { fails.push(format!("holds {} entries, capacity {}", n, percap * nshards)); } vec![n as i128] }
+            };
+            let lg = log.0.lock().unwrap();
+            let new_cb: Vec<(u64, u64)> = lg[seen..].to_vec();
+            seen = lg.len();
+            drop(lg);
+            if c != 4 { for (ek, ev) in &new_cb { if !known(&put_for, *ek, Some(*ev)) { fails.push(format!("eviction callback got ({}, {}), never put", ek, ev)); } } }
+            if c == 0 && !new_cb.is_empty() { fails.push(format!("get({}) invoked the eviction callback with {:?}", k, new_cb)); }
+            if c == 1 && new_cb.len() > 1 { fails.push(format!("put({},{}) evicted {} entries", k, v, new_cb.len())); }
+            if c != 2 && c != 4 { for (ek, ev) in new_cb { o.push(ek as i128); o.push(ev as i128); } }
+            obs.push(o);
+        }
+    });
+    if let Err(p) = r { fails.push(format!("panicked: {}", p)); }
+    if let Some(f) = fails.first() { cx.sum.fail(cell, None, cj.clone(), f); }
+    if fails.iter().all(|f| !f.contains("panicked")) && obs.len() == ops.len() && (force || cx.n_x[T_RR] < cx.budget_x[T_RR]) {
+        cx.n_x[T_RR] += 1;
+        cx.terms[T_RR].push((format!("CRr {} {}%nat {} {}", percap, nshards, ops_coq(ops), obs_coq(&obs)), cj));
+    }
+}
+
+/// ThreadAffinity routing: the operations are made by `nthreads` worker threads, one at a time (a sequential history with a
+/// thread per operation).  The shard of a thread is observed (a put on a fresh map from that thread, then shard_sizes()).
+/// Oracle: each shard is an LRU of the per-shard capacity on the operations of the threads that hash to it.
+fn ta_history(cx: &mut Ctx, total: usize, nshards: usize, nthreads: usize, tops: &[(u64, Op)], force: bool) {
+    use std::sync::mpsc::{channel, Receiver, Sender};
+    let cell = "ConcurrentLruMap/ThreadAffinity";
+    let percap = total / nshards.max(1);
+    cx.sum.eval(cell, &format!("ta {} {} {} {:?}", total, nshards, nthreads, tops), tops.iter().filter(|o| o.1 .0 == 1).count() > percap);
+    let cj = json!({"cell": "ta", "total": total, "nshards": nshards, "nthreads": nthreads,
+                    "ops": tops.iter().map(|(t, o)| json!([t, o.0, o.1, o.2])).collect::<Vec<_>>()});
+    let log = Rec(Arc::new(Mutex::new(vec![])));
+    let m = match guarded(|| ConcurrentLruMap::<u64, u64, Rec>::with_config_and_callback(cmap_config(0, total, nshards, 2), log.clone())) {
+        Ok(Ok(m)) => Arc::new(m),
+        Ok(Err(e)) => { cx.sum.fail(cell, None, cj, &format!("constructor refused a valid configuration: {:?}", e)); return; }
+        Err(p) => { cx.sum.fail(cell, None, cj, &format!("constructor panicked: {}", p)); return; }
+    };
+    let mut workers: Vec<(Sender<Op>, Receiver<Result<Vec<i128>, String>>)> = vec![];
+    let mut route: Vec<usize> = vec![];
+    for _ in 0..nthreads.max(1) {
+        let (txo, rxo) = channel::<Op>();
+        let (txr, rxr) = channel::<Result<Vec<i128>, String>>();
+        let m = m.clone();
+        std::thread::spawn(move || {
+            let probe = guarded(|| {
+                let p = ConcurrentLruMap::<u64, u64>::with_config(cmap_config(0, total, nshards, 2)).ok()?;
+                p.put(0, 0).ok()?;
+                p.shard_sizes().iter().position(|&n| n == 1)
+            });
+            let _ = txr.send(match probe { Ok(Some(j)) => Ok(vec![j as i128]), _ => Err("cannot observe the shard of the thread".into()) });
+            while let Ok((c, k, v)) = rxo.recv() {
+                let r = guarded(|| match c {
+                    0 => enc_opt(m.get(&k)),
+                    1 => match m.put(k, v) { Ok(o) => enc_opt(o), Err(_) => vec![-1] },
+                    2 => enc_opt(m.remove(&k)),
+                    3 => vec![m.contains_key(&k) as i128],
+                    4 => match m.clear() { Ok(()) => vec![0], Err(_) => vec![-2] },
+                    _ => vec![m.len() as i128],
+                });
+                if txr.send(r).is_err() { break; }
+            }
+        });
+        match rxr.recv_timeout(std::time::Duration::from_secs(5)) {
+            Ok(Ok(v)) => route.push(v[0] as usize),
+            _ => { cx.sum.fail(cell, None, cj, "cannot observe the shard of a worker thread"); return; }
+        }
+        workers.push((txo, rxr));
+    }
+    let hung = std::cell::Cell::new(false);
+    let call = |t: usize, op: Op| -> Vec<i128> {
+        if hung.get() || workers[t].0.send(op).is_err() { hung.set(true); return vec![-3]; }
+        match workers[t].1.recv_timeout(std::time::Duration::from_secs(5)) { Ok(Ok(v)) => v, Ok(Err(_)) => vec![-4], Err(_) => { hung.set(true); vec![-3] } }
+    };
+    let dec_opt = |v: Vec<i128>| -> Option<u64> { if v.len() == 2 && v[0] == 1 { Some(v[1] as u64) } else { None } };
+    let mut refs: Vec<RefLru> = (0..nshards).map(|_| RefLru::new(percap)).collect();
+    let mut seen = 0usize;
+    let mut fails: Vec<String> = vec![];
+    let mut obs: Vec<Vec<i128>> = vec![];
+    for &(tid, op) in tops {
+        let t = (tid as usize) % workers.len();
+        let j = route[t];
+        let o = step_check(op, &mut refs, &|_| j, &log, &mut seen,
+            &|k| dec_opt(call(t, (0, k, 0))),
+            &|k, v| { let r = call(t, (1, k, v)); if r == vec![-1] { Err("put refused".into()) } else if r[0] < -1 { Err("panicked or hung".into()) } else { Ok(dec_opt(r)) } },
+            &|k| dec_opt(call(t, (2, k, 0))), &|k| call(t, (3, k, 0)) == vec![1],
+            &|| { let r = call(t, (4, 0, 0)); if r == vec![0] { Ok(()) } else { Err("clear refused".into()) } },
+            &|| { let r = call(t, (5, 0, 0)); if r[0] >= 0 { r[0] as usize } else { usize::MAX } }, &mut fails);
+        obs.push(o);
+        if hung.get() { fails.push(format!("thread {} never returned from {:?}", t, op)); break; }
+    }
+    drop(workers);
+    if let Some(f) = fails.first() { cx.sum.fail(cell, None, cj.clone(), f); }
+    if !hung.get() && fails.iter().all(|f| !f.contains("panicked")) && obs.len() == tops.len() && (force || cx.n_x[T_TA] < cx.budget_x[T_TA]) {
+        cx.n_x[T_TA] += 1;
+        let rts = format!("[{}]", route.iter().enumerate().map(|(t, j)| format!("({}, {})", t, j)).collect::<Vec<_>>().join("; "));
+        let tops_coq = format!("[{}]", tops.iter().map(|(t, o)| format!("({}, ({}, {}, {}))", (*t as usize) % route.len(), o.0, o.1, o.2)).collect::<Vec<_>>().join("; "));
+        cx.terms[T_TA].push((format!("CTa {} {}%nat {} {} {}", percap, nshards, rts, tops_coq, obs_coq(&obs)), cj));
+    }
+}
+
 /// ThreadAffinity routing: a value put by one thread must be visible to another thread.
 fn affinity_case(cx: &mut Ctx, nshards: usize, nthreads: usize) {
     let cell = "ConcurrentLruMap/ThreadAffinity";
     cx.sum.eval(cell, &format!("affinity {} {}", nshards, nthreads), true);
-    cx.sum.cell_status(cell, "S-only");
     let cj = json!({"cell": "affinity", "nshards": nshards, "nthreads": nthreads});
     let class = if nshards > 1 { Some("concurrent_thread_affinity_routing") } else { None };
     let r = guarded(|| {
@@ -359,17 +509,20 @@ fn gen_ops(r: &mut Rng, nkeys: u64, n: usize) -> Vec<Op> {
 // ---------------------------------------------------------------------------------------------
 fn file_byte(seed: u64, i: u64) -> u8 { ((i * 31 + (i >> 8) * 7 + seed) & 255) as u8 }
 fn gen_file(seed: u64, len: u64) -> Vec<u8> { (0..len).map(|i| file_byte(seed, i)).collect() }
-fn digest(b: &[u8]) -> Vec<u128> {
+fn digest_vals(b: &[u128]) -> Vec<u128> {
     let mut acc: u128 = 0;
-    for (i, &x) in b.iter().enumerate() { acc += ((i as u128 % 251) + 1) * x as u128; }
+    for (i, &x) in b.iter().enumerate() { acc += ((i as u128 % 251) + 1) * x; }
     let mut d = vec![b.len() as u128, acc];
-    d.extend(b.iter().take(8).map(|&x| x as u128));
-    d.extend(b.iter().rev().take(8).map(|&x| x as u128));
+    d.extend(b.iter().take(8).copied());
+    d.extend(b.iter().rev().take(8).copied());
     d
 }
+fn digest(b: &[u8]) -> Vec<u128> { digest_vals(&b.iter().map(|&x| x as u128).collect::<Vec<_>>()) }
 
 type POp = (u8, u64, u64, u64); // 0 read f off len | 1 prefetch f off len | 2 invalidate_page f page | 3 invalidate_range f off len
-                                // 4 read_with_prefetch f off len (ahead = len) | 5 read_batch of this one read | 6 overwrite f off len (+ invalidate_range)
+                                // 4 read_with_prefetch f off len (ahead = len) | 5 read_batch of this one read (Single: read into a used buffer)
+                                // 6 overwrite f off len (+ invalidate_range of exactly that range) | 7 overwrite f off len only (somebody else rewrites the
+                                // file; the cache is told later, if at all) | 8 close_file f | 9 size() (Single only)
 
 fn pc_config(preset: u64, capbytes: usize) -> PageCacheConfig {
     let c = match preset { 1 => PageCacheConfig::performance_optimized(), 2 => PageCacheConfig::memory_optimized(), 3 => PageCacheConfig::security_optimized(), _ => PageCacheConfig::balanced() };
@@ -393,7 +546,8 @@ impl Pc {
                 _ => c.read(f, off, len).map(|b| b.data().to_vec()),
             },
             Pc::Single(c) => match how {
-                5 => { let mut b = zipora::cache::CacheBuffer::new(); c.read(f, off, len, &mut b).map(|_| b.data().to_vec()) }
+                // read(.., &mut buffer) replaces what the buffer held
+                5 => { let mut b = zipora::cache::CacheBuffer::from_data(vec![7u8; len.min(64)]); c.read(f, off, len, &mut b).map(|_| b.data().to_vec()) }
                 4 => c.prefetch(f, off + len as u64, len).and_then(|_| c.read_new(f, off, len)).map(|b| b.data().to_vec()),
                 _ => c.read_new(f, off, len).map(|b| b.data().to_vec()),
             },
@@ -402,12 +556,22 @@ impl Pc {
     fn prefetch(&self, f: u32, off: u64, len: usize) -> Result<(), String> { match self { Pc::Multi(c) => c.prefetch(f, off, len), Pc::Single(c) => c.prefetch(f, off, len) }.map_err(|e| format!("{:?}", e)) }
     fn inv_page(&self, f: u32, p: u32) -> Result<(), String> { match self { Pc::Multi(c) => c.invalidate_page(f, p), Pc::Single(c) => c.invalidate_page(f, p) }.map_err(|e| format!("{:?}", e)) }
     fn inv_range(&self, f: u32, off: u64, len: usize) -> Result<(), String> { match self { Pc::Multi(c) => c.invalidate_range(f, off, len), Pc::Single(c) => c.invalidate_range(f, off, len) }.map_err(|e| format!("{:?}", e)) }
+    fn close(&self, f: u32) -> Result<(), String> { match self { Pc::Multi(c) => c.close_file(f), Pc::Single(c) => c.close_file(f) }.map_err(|e| format!("{:?}", e)) }
 }
 
-/// files: (seed, len) per file; file ids are handed out 1,2,.. in order by the implementation (observed, not assumed)
+/// files: (seed, len) per file; file ids are handed out 1,2,.. in order by the implementation (observed, not assumed).
+/// The oracle works on bytes, not on pages: a byte returned by a read must be the byte the file holds now; only a byte
+/// that somebody rewrote without telling the cache (op 7) may still show a value it held since the last invalidation
+/// (invalidate_range / invalidate_page / close_file) that covered it.
 fn pc_history(cx: &mut Ctx, single: bool, preset: u64, capbytes: usize, files: &[(u64, u64)], ops: &[POp], force: bool) {
     let has_ow = ops.iter().any(|o| o.0 == 6);
-    let cell = if single { "SingleLruPageCache".to_string() } else if has_ow { "LruPageCache/overwrite+invalidate".to_string() } else { format!("LruPageCache/{}", ["balanced", "performance", "memory", "security"][(preset % 4) as usize]) };
+    let has_rw = ops.iter().any(|o| o.0 == 7);
+    let has_close = ops.iter().any(|o| o.0 == 8);
+    let cell = if single { "SingleLruPageCache".to_string() }
+               else if has_close { "LruPageCache/close_file".to_string() }
+               else if has_rw { "LruPageCache/rewrite-then-invalidate_range".to_string() }
+               else if has_ow { "LruPageCache/overwrite+invalidate".to_string() }
+               else { format!("LruPageCache/{}", ["balanced", "performance", "memory", "security"][(preset % 4) as usize]) };
     cx.sum.eval(&cell, &format!("pc {} {} {} {:?} {:?}", single, preset, capbytes, files, ops), ops.len() >= 3);
     let cj = json!({"cell": "pc", "single": single, "preset": preset, "capbytes": capbytes,
                     "files": files.iter().map(|f| json!([f.0, f.1])).collect::<Vec<_>>(), "ops": pops_json(ops)});
@@ -428,63 +592,115 @@ fn pc_history(cx: &mut Ctx, single: bool, preset: u64, capbytes: usize, files: &
         contents.push(data);
         paths.push(p);
     }
+    // per file: byte index -> values the byte held since the cache was last told about it
+    let mut alts: Vec<HashMap<u64, Vec<u8>>> = files.iter().map(|_| HashMap::new()).collect();
+    let mut closed: Vec<bool> = files.iter().map(|_| false).collect();
     let mut fails: Vec<String> = vec![];
-    let mut mops: Vec<String> = vec![]; // model ops
+    let mut mops: Vec<String> = vec![]; // model ops, encoding of Model.pc_step_h
     let mut mobs: Vec<String> = vec![];
-    let mut modelled = !single && files.len() <= 2;
-    let mut suspicious_short = false;
+    let mut xops: Vec<String> = vec![]; // model ops, encoding of ModelInval.x_step_h / s_step_h
+    let mut xobs: Vec<String> = vec![];
+    let mut modelled = files.len() <= 2;
+    let legacy = !single && !has_rw && !has_close;
+    let size_deterministic = capbytes / PAGE_SIZE >= 32;   // nothing is evicted, so the page count does not depend on which page a tie evicts
+    let unit = coq_n_list(digest(&[]));
     for &(c, fi, a, b) in ops {
         let fi = (fi as usize) % files.len().max(1);
         let fid = fids[fi];
         match c {
             0 | 4 | 5 => {
-                let want: Vec<u8> = { let d = &contents[fi]; let s = (a as usize).min(d.len()); let e = (a as usize).saturating_add(b as usize).min(d.len()); d[s..e].to_vec() };
+                // a closed id has no underlying file: the property says nothing about absurd requests on it (the code does not clamp them)
+                if closed[fi] && (a >= 1 << 40 || b >= 1 << 22) { continue; }
+                let want: Vec<u8> = if closed[fi] { vec![] } else { let d = &contents[fi]; let s = (a as usize).min(d.len()); let e = (a as usize).saturating_add(b as usize).min(d.len()); d[s..e].to_vec() };
                 match guarded(|| cache.read(fid, a, b as usize, c)) {
                     Ok(Ok(got)) => {
-                        if got != want {
-                            if got.len() < want.len() && want.starts_with(&got) { suspicious_short = true; }
-                            fails.push(format!("read(file {} of {} bytes, offset {}, length {}) returned {} bytes, the file has {} in that range{}", fi, contents[fi].len(), a, b, got.len(), want.len(),
-                                if got.len() == want.len() { " (different bytes)" } else { "" }));
+                        let base = (a as usize).min(contents[fi].len()) as u64;
+                        let fresh = got.len() == want.len() && got.iter().enumerate().all(|(i, &g)| g == want[i] || alts[fi].get(&(base + i as u64)).map_or(false, |v| v.contains(&g)));
+                        if !fresh {
+                            fails.push(if closed[fi] { format!("read(closed file {}, offset {}, length {}) returned {} bytes", fi, a, b, got.len()) }
+                                       else { format!("read(file {} of {} bytes, offset {}, length {}) returned {} bytes, the file has {} in that range{}", fi, contents[fi].len(), a, b, got.len(), want.len(),
+                                if got.len() == want.len() { " (different bytes)" } else { "" }) });
                         }
-                        if c == 4 { mops.push(format!("(1, {}, {}, {})", fid, a + b, b)); mobs.push(coq_n_list(digest(&[]))); }
+                        if c == 4 { mops.push(format!("(1, {}, {}, {})", fid, a + b, b)); mobs.push(unit.clone()); }
                         mops.push(format!("(0, {}, {}, {})", fid, a, b));
                         mobs.push(coq_n_list(digest(&got)));
+                        if single {
+                            if c == 4 { xops.push(format!("(1, {}, {}, {})", fid, a + b, b)); xobs.push(unit.clone()); }
+                            xops.push(format!("({}, {}, {}, {})", if c == 5 { 8 } else { 0 }, fid, a, b));
+                        } else { xops.push(format!("({}, {}, {}, {})", if c == 4 { 7 } else { 0 }, fid, a, b)); }
+                        xobs.push(coq_n_list(digest(&got)));
                     }
-                    Ok(Err(e)) => { fails.push(format!("read(offset {}, length {}) failed: {}", a, b, e)); modelled = false; }
+                    Ok(Err(e)) => { if !closed[fi] { fails.push(format!("read(offset {}, length {}) failed: {}", a, b, e)); } modelled = false; }
                     Err(p) => { fails.push(format!("read(offset {}, length {}) panicked: {}", a, b, p)); modelled = false; }
                 }
             }
             1 => { match guarded(|| cache.prefetch(fid, a, b as usize)) { Ok(Ok(())) => {}, Ok(Err(e)) => { fails.push(format!("prefetch failed: {}", e)); modelled = false; } Err(p) => { fails.push(format!("prefetch panicked: {}", p)); modelled = false; } }
-                   mops.push(format!("(1, {}, {}, {})", fid, a, b)); mobs.push(coq_n_list(digest(&[]))); }
-            2 => { match guarded(|| cache.inv_page(fid, a as u32)) { Ok(Ok(())) => {}, Ok(Err(e)) => { fails.push(format!("invalidate_page failed: {}", e)); modelled = false; } Err(p) => { fails.push(format!("invalidate_page panicked: {}", p)); modelled = false; } }
-                   mops.push(format!("(2, {}, {}, 0)", fid, a)); mobs.push(coq_n_list(digest(&[]))); }
-            3 => { match guarded(|| cache.inv_range(fid, a, b as usize)) { Ok(Ok(())) => {}, Ok(Err(e)) => { fails.push(format!("invalidate_range failed: {}", e)); modelled = false; } Err(p) => { fails.push(format!("invalidate_range panicked: {}", p)); modelled = false; } }
-                   mops.push(format!("(3, {}, {}, {})", fid, a, b)); mobs.push(coq_n_list(digest(&[]))); }
-            _ => {
-                // overwrite [a, a+b) inside the file (same size), then the explicit invalidation the property speaks of
+                   mops.push(format!("(1, {}, {}, {})", fid, a, b)); mobs.push(unit.clone());
+                   xops.push(format!("(1, {}, {}, {})", fid, a, b)); xobs.push(unit.clone()); }
+            2 => { match guarded(|| cache.inv_page(fid, a as u32)) { Ok(Ok(())) => { let lo = a * PAGE_SIZE as u64; alts[fi].retain(|&i, _| !(i >= lo && i < lo + PAGE_SIZE as u64)); }, Ok(Err(e)) => { fails.push(format!("invalidate_page failed: {}", e)); modelled = false; } Err(p) => { fails.push(format!("invalidate_page panicked: {}", p)); modelled = false; } }
+                   mops.push(format!("(2, {}, {}, 0)", fid, a)); mobs.push(unit.clone());
+                   xops.push(format!("(2, {}, {}, 0)", fid, a)); xobs.push(unit.clone()); }
+            3 => { match guarded(|| cache.inv_range(fid, a, b as usize)) { Ok(Ok(())) => { alts[fi].retain(|&i, _| !(i >= a && (i as u128) < a as u128 + b as u128)); }, Ok(Err(e)) => { fails.push(format!("invalidate_range failed: {}", e)); modelled = false; } Err(p) => { fails.push(format!("invalidate_range panicked: {}", p)); modelled = false; } }
+                   mops.push(format!("(3, {}, {}, {})", fid, a, b)); mobs.push(unit.clone());
+                   xops.push(format!("(3, {}, {}, {})", fid, a, b)); xobs.push(unit.clone()); }
+            6 | 7 => {
+                // rewrite [a, a+b) inside the file (same size); 6: then the explicit invalidation the property speaks of
+                if closed[fi] { continue; }
                 let d = &mut contents[fi];
                 let s = (a as usize).min(d.len()); let e = (a as usize).saturating_add(b as usize).min(d.len());
                 if s < e {
-                    for (i, x) in d[s..e].iter_mut().enumerate() { *x = x.wrapping_mul(3).wrapping_add(i as u8).wrapping_add(101); }
+                    for (i, x) in d[s..e].iter_mut().enumerate() { alts[fi].entry((s + i) as u64).or_default().push(*x); *x = x.wrapping_mul(3).wrapping_add(i as u8).wrapping_add(101); }
                     std::fs::write(&paths[fi], &*d).expect("rewrite test file");
-                    match guarded(|| cache.inv_range(fid, s as u64, e - s)) { Ok(Ok(())) => {}, Ok(Err(er)) => { fails.push(format!("invalidate_range failed: {}", er)); modelled = false; } Err(p) => { fails.push(format!("invalidate_range panicked: {}", p)); modelled = false; } }
-                    mops.push(format!("(4, {}, {}, {})", fid, s, e - s)); mobs.push(coq_n_list(digest(&[])));
+                    if c == 6 {
+                        match guarded(|| cache.inv_range(fid, s as u64, e - s)) { Ok(Ok(())) => { alts[fi].retain(|&i, _| !(i >= s as u64 && i < e as u64)); }, Ok(Err(er)) => { fails.push(format!("invalidate_range failed: {}", er)); modelled = false; } Err(p) => { fails.push(format!("invalidate_range panicked: {}", p)); modelled = false; } }
+                        mops.push(format!("(4, {}, {}, {})", fid, s, e - s)); mobs.push(unit.clone());
+                    }
+                    xops.push(format!("({}, {}, {}, {})", if c == 6 { 4 } else { 5 }, fid, s, e - s)); xobs.push(unit.clone());
+                }
+            }
+            8 => {
+                match guarded(|| cache.close(fid)) {
+                    Ok(r) => {
+                        if r.is_err() && !closed[fi] { fails.push(format!("close_file(file {}) failed: {:?}", fi, r)); }
+                        if r.is_ok() { closed[fi] = true; alts[fi].clear(); }
+                        xops.push(format!("(6, {}, 0, 0)", fid)); xobs.push(coq_n_list(digest(&[r.is_ok() as u8])));
+                    }
+                    Err(p) => { fails.push(format!("close_file panicked: {}", p)); modelled = false; }
+                }
+            }
+            _ => {
+                if let Pc::Single(sc) = &cache {
+                    match guarded(|| (sc.size(), sc.capacity())) {
+                        Ok((n, cap)) => {
+                            if n > (cap / PAGE_SIZE).max(1) { fails.push(format!("size() = {} pages, capacity {} bytes", n, cap)); }
+                            if size_deterministic { xops.push("(9, 0, 0, 0)".to_string()); xobs.push(coq_n_list(digest_vals(&[n as u128]))); }
+                        }
+                        Err(p) => { fails.push(format!("size() panicked: {}", p)); modelled = false; }
+                    }
                 }
             }
         }
     }
     for p in &paths { let _ = std::fs::remove_file(p); }
-    let _ = suspicious_short;
     if let Some(f) = fails.first() { cx.sum.fail(&cell, None, cj.clone(), f); }
-    if single { cx.sum.cell_status(&cell, "S-only"); }
-    if modelled && (force || cx.n_pc < cx.budget_pc) {
-        cx.n_pc += 1;
-        let fs = format!("[{}]", files.iter().zip(fids.iter()).map(|((s, l), f)| format!("({}, ({}, {}))", f, s, l)).collect::<Vec<_>>().join("; "));
-        cx.terms[2].push((format!("CPc {} {} {} [{}] [{}]", PAGE_SIZE, pc_config(preset, capbytes).capacity, fs, mops.join("; "), mobs.join("; ")), cj));
+    if !modelled { return; }
+    let fs = format!("[{}]", files.iter().zip(fids.iter()).map(|((s, l), f)| format!("({}, ({}, {}))", f, s, l)).collect::<Vec<_>>().join("; "));
+    if legacy {
+        if force || cx.n_pc < cx.budget_pc {
+            cx.n_pc += 1;
+            cx.terms[2].push((format!("CPc {} {} {} [{}] [{}]", PAGE_SIZE, pc_config(preset, capbytes).capacity, fs, mops.join("; "), mobs.join("; ")), cj));
+        }
+    } else {
+        let t = if single { T_PS } else { T_PX };
+        if force || cx.n_x[t] < cx.budget_x[t] {
+            cx.n_x[t] += 1;
+            cx.terms[t].push((format!("{} {} {} {} [{}] [{}]", if single { "CPs" } else { "CPx" }, PAGE_SIZE, pc_config(preset, capbytes).capacity, fs, xops.join("; "), xobs.join("; ")), cj));
+        }
     }
 }
 
-fn gen_pops(r: &mut Rng, files: &[(u64, u64)], n: usize, with_overwrite: bool) -> Vec<POp> {
+/// extra: 0 the operations of the first version | 1 also rewrite-without-invalidation (7) and close_file (8) | 2 also size() (Single)
+fn gen_pops(r: &mut Rng, files: &[(u64, u64)], n: usize, with_overwrite: bool, extra: u8) -> Vec<POp> {
     let ps = PAGE_SIZE as u64;
     let mut ops = vec![];
     for _ in 0..n {
@@ -525,6 +741,21 @@ fn gen_pops(r: &mut Rng, files: &[(u64, u64)], n: usize, with_overwrite: bool) -
             ops.push((if r.chance(1, 4) { 5 } else { 0 }, fi, o, l));
             continue;
         }
+        if extra > 0 && r.chance(1, 7) {
+            match r.below(if extra == 2 { 12 } else { 10 }) {
+                0 => ops.push((8, fi, 0, 0)),
+                1..=6 => { ops.push((7, fi, off, len.min(2 * ps)));
+                           // the cache is told later, about a range that covers the rewrite, only part of it, or another one
+                           if r.chance(1, 2) { ops.push((0, fi, off.saturating_sub(r.below(10)), len.min(2 * ps) + r.below(20))); }
+                           match r.below(4) { 0 => ops.push((3, fi, off.saturating_sub(r.below(ps)), len.min(2 * ps) + ps)),
+                                              1 => ops.push((3, fi, off, len.min(2 * ps))),
+                                              2 => ops.push((3, fi, off + len.min(2 * ps) / 2, len)),
+                                              _ => {} } }
+                7..=9 => ops.push((0, fi, 0, flen)),
+                _ => ops.push((9, 0, 0, 0)),
+            }
+            continue;
+        }
         let c = r.below(100);
         let op = if c < 55 { 0 } else if c < 62 { 4 } else if c < 68 { 5 } else if c < 78 { 1 } else if c < 86 { 2 } else if c < 93 { 3 } else if with_overwrite { 6 } else { 0 };
         if op == 2 { ops.push((2, fi, r.below(npages + 1), 0)); } else { ops.push((op as u8, fi, off, len)); }
@@ -537,17 +768,22 @@ fn gen_pops(r: &mut Rng, files: &[(u64, u64)], n: usize, with_overwrite: bool) -
 // ---------------------------------------------------------------------------------------------
 type BOp = (u8, u64, u64); // 0 put(len a, seed b) | 1 get(a-th id) | 2 remove(a-th id) | 3 flush | 4 prefetch_range(a, b) | 5 disable | 6 enable
                            // 7 set strategy a | 8 read the shared file through the shared cache (off a, len b)
+                           // 9 rewrite [a, a+b) of the shared file and invalidate that range in the shared cache
 fn bops_json(ops: &[BOp]) -> Value { json!(ops.iter().map(|o| json!([o.0, o.1, o.2])).collect::<Vec<_>>()) }
 
-fn blob_history(cx: &mut Ctx, strategy: u64, preset: u64, capbytes: usize, shared: bool, ops: &[BOp]) {
+fn blob_history(cx: &mut Ctx, strategy: u64, preset: u64, capbytes: usize, shared: bool, ops: &[BOp], force: bool) {
     let sname = ["WriteThrough", "WriteBack", "WriteAround"][(strategy % 3) as usize];
     let cell = format!("CachedBlobStore/{}{}", sname, if shared { "/shared-cache" } else { "" });
     cx.sum.eval(&cell, &format!("blob {} {} {} {} {:?}", strategy, preset, capbytes, shared, ops), ops.len() >= 3);
-    cx.sum.cell_status(&cell, "S-only");
     let cj = json!({"cell": "blob", "strategy": strategy, "preset": preset, "capbytes": capbytes, "shared": shared, "ops": bops_json(ops)});
     let strat = |s: u64| match s % 3 { 1 => CacheWriteStrategy::WriteBack, 2 => CacheWriteStrategy::WriteAround, _ => CacheWriteStrategy::WriteThrough };
     let mut fails: Vec<String> = vec![];
     let mut shared_file: Option<(String, Vec<u8>)> = None;
+    // every call made on the store / the shared cache, in the encoding of ModelBlob.dec_bop, with what it returned
+    let mut mops: Vec<String> = vec![];
+    let mut mobs: Vec<String> = vec![];
+    let mut real_fid: u32 = 0;
+    let flen = 3 * PAGE_SIZE as u64 + 17;
     let r = guarded(|| -> Result<(), String> {
         let e = |x: zipora::error::ZiporaError| format!("{:?}", x);
         let mut shared_cache: Option<(Arc<LruPageCache>, u32)> = None;
@@ -555,9 +791,10 @@ fn blob_history(cx: &mut Ctx, strategy: u64, preset: u64, capbytes: usize, share
             let cache = Arc::new(LruPageCache::new(pc_config(preset, capbytes)).map_err(e)?);
             cx.fileno += 1;
             let p = format!("{}/b{}", cx.tmp, cx.fileno);
-            let data = gen_file(5, 3 * PAGE_SIZE as u64 + 17);
+            let data = gen_file(5, flen);
             std::fs::write(&p, &data).map_err(|x| x.to_string())?;
             let fid = cache.open_file(&p).map_err(e)?;
+            real_fid = fid;
             shared_file = Some((p, data));
             shared_cache = Some((cache.clone(), fid));
             CachedBlobStore::with_cache_and_strategy(MemoryBlobStore::new(), cache, strat(strategy)).map_err(e)?
@@ -566,50 +803,84 @@ fn blob_history(cx: &mut Ctx, strategy: u64, preset: u64, capbytes: usize, share
         };
         let mut ids: Vec<u32> = vec![];
         let mut shadow: HashMap<u32, Vec<u8>> = HashMap::new();
+        let mut get = |store: &CachedBlobStore<MemoryBlobStore>, id: u32, mops: &mut Vec<String>, mobs: &mut Vec<String>| -> Option<Vec<u8>> {
+            let got = store.get(id).ok();
+            mops.push(format!("(1, {}, 0)", id));
+            mobs.push(match &got { Some(g) => { let mut d = vec![1u128]; d.extend(digest(g)); coq_n_list(d) } None => coq_n_list(vec![0u128]) });
+            got
+        };
         for &(c, a, b) in ops {
             match c {
                 0 => { let data = gen_file(b, a); let id = store.put(&data).map_err(e)?;
+                       mops.push(format!("(0, {}, {})", a, b)); mobs.push(coq_n_list(vec![1u128, id as u128]));
                        if shadow.contains_key(&id) { fails.push(format!("put returned id {} which is still in use", id)); }
                        shadow.insert(id, data); ids.push(id); }
                 1 | 2 => {
                     if ids.is_empty() { continue; }
                     let id = ids[(a as usize) % ids.len()];
                     if c == 1 {
-                        let got = store.get(id).ok();
+                        let got = get(&store, id, &mut mops, &mut mobs);
                         let inner = store.inner().get(id).ok();
                         let want = shadow.get(&id).cloned();
-                        if got != inner { fails.push(format!("get({}) returned {:?} bytes, the wrapped store returns {:?} bytes", id, got.as_ref().map(|g| g.len()), inner.as_ref().map(|g| g.len()))); }
+                        if got != inner { fails.push(format!("get({}) returned {:?} bytes, the wrapped store returns {:?} bytes{}", id, got.as_ref().map(|g| g.len()), inner.as_ref().map(|g| g.len()),
+                            if got.as_ref().map(|g| g.len()) == inner.as_ref().map(|g| g.len()) { " (different bytes)" } else { "" })); }
                         else if got != want { fails.push(format!("get({}) differs from the bytes put", id)); }
-                        if store.size(id).ok().flatten() != want.as_ref().map(|w| w.len()) { fails.push(format!("size({}) wrong", id)); }
-                        if store.contains(id) != want.is_some() { fails.push(format!("contains({}) wrong", id)); }
+                        let sz = store.size(id).ok().flatten();
+                        mops.push(format!("(9, {}, 0)", id)); mobs.push(coq_n_list(match sz { Some(n) => vec![1u128, n as u128], None => vec![0u128] }));
+                        if sz != want.as_ref().map(|w| w.len()) { fails.push(format!("size({}) wrong", id)); }
+                        let has = store.contains(id);
+                        mops.push(format!("(10, {}, 0)", id)); mobs.push(coq_n_list(vec![has as u128]));
+                        if has != want.is_some() { fails.push(format!("contains({}) wrong", id)); }
                     } else {
                         let was = shadow.remove(&id).is_some();
                         let r = store.remove(id);
+                        mops.push(format!("(2, {}, 0)", id)); mobs.push(coq_n_list(vec![r.is_ok() as u128]));
                         if r.is_ok() != was { fails.push(format!("remove({}) = {:?}, present = {}", id, r.is_ok(), was)); }
-                        if store.get(id).is_ok() { fails.push(format!("get({}) after remove still returns data", id)); }
+                        if get(&store, id, &mut mops, &mut mobs).is_some() { fails.push(format!("get({}) after remove still returns data", id)); }
                     }
                 }
-                3 => { store.flush().map_err(e)?; }
-                4 => { store.prefetch_range(a, b as usize).map_err(e)?; }
-                5 => store.disable_cache(),
-                6 => store.enable_cache(),
-                7 => store.set_write_strategy(strat(a)),
-                _ => { if let (Some((cache, fid)), Some((_, data))) = (&shared_cache, &shared_file) {
+                3 => { store.flush().map_err(e)?; mops.push("(3, 0, 0)".into()); mobs.push(coq_n_list(Vec::<u128>::new())); }
+                4 => { store.prefetch_range(a, b as usize).map_err(e)?; mops.push(format!("(4, {}, {})", a, b)); mobs.push(coq_n_list(Vec::<u128>::new())); }
+                5 => { store.disable_cache(); mops.push("(5, 0, 0)".into()); mobs.push(coq_n_list(Vec::<u128>::new())); }
+                6 => { store.enable_cache(); mops.push("(6, 0, 0)".into()); mobs.push(coq_n_list(Vec::<u128>::new())); }
+                7 => { store.set_write_strategy(strat(a)); mops.push(format!("(7, {}, 0)", a % 3)); mobs.push(coq_n_list(Vec::<u128>::new())); }
+                8 => { if let (Some((cache, fid)), Some((_, data))) = (&shared_cache, &shared_file) {
                            let got = cache.read(*fid, a, b as usize).map_err(e)?.data().to_vec();
+                           mops.push(format!("(8, {}, {})", a, b)); mobs.push(coq_n_list(digest(&got)));
                            let s = (a as usize).min(data.len()); let en = (a as usize + b as usize).min(data.len());
-                           if got != data[s..en] { fails.push(format!("shared cache: read(real file, {}, {}) returned {} bytes, the file has {}", a, b, got.len(), en - s)); }
+                           if got != data[s..en] { fails.push(format!("shared cache: read(real file, {}, {}) returned {} bytes, the file has {}{}", a, b, got.len(), en - s, if got.len() == en - s { " (different bytes)" } else { "" })); }
+                       } }
+                _ => { if let (Some((cache, fid)), Some((p, data))) = (&shared_cache, &mut shared_file) {
+                           let s = (a as usize).min(data.len()); let en = (a as usize + b as usize).min(data.len());
+                           if s < en {
+                               for (i, x) in data[s..en].iter_mut().enumerate() { *x = x.wrapping_mul(3).wrapping_add(i as u8).wrapping_add(101); }
+                               std::fs::write(&*p, &*data).map_err(|x| x.to_string())?;
+                               cache.invalidate_range(*fid, s as u64, en - s).map_err(e)?;
+                               mops.push(format!("(12, {}, {})", s, en - s)); mobs.push(coq_n_list(Vec::<u128>::new()));
+                           }
                        } }
             }
-            if store.len() != shadow.len() { fails.push(format!("len() = {}, {} blobs stored", store.len(), shadow.len())); }
+            let n = store.len();
+            mops.push("(11, 0, 0)".into()); mobs.push(coq_n_list(vec![n as u128]));
+            if n != shadow.len() { fails.push(format!("len() = {}, {} blobs stored", n, shadow.len())); }
         }
-        for (&id, want) in &shadow {
-            if store.get(id).ok().as_ref() != Some(want) { fails.push(format!("at the end get({}) differs from the bytes put", id)); break; }
+        let mut left: Vec<u32> = shadow.keys().copied().collect();
+        left.sort();
+        for id in left {
+            if get(&store, id, &mut mops, &mut mobs).as_ref() != shadow.get(&id) { fails.push(format!("at the end get({}) differs from the bytes put", id)); break; }
         }
         Ok(())
     });
     if let Some((p, _)) = &shared_file { let _ = std::fs::remove_file(p); }
-    match r { Ok(Ok(())) => {}, Ok(Err(e)) => fails.push(format!("operation failed: {}", e)), Err(p) => fails.push(format!("panicked: {}", p)) }
-    if let Some(f) = fails.first() { cx.sum.fail(&cell, None, cj, f); }
+    let mut modelled = true;
+    match r { Ok(Ok(())) => {}, Ok(Err(e)) => { fails.push(format!("operation failed: {}", e)); modelled = false; } Err(p) => { fails.push(format!("panicked: {}", p)); modelled = false; } }
+    if let Some(f) = fails.first() { cx.sum.fail(&cell, None, cj.clone(), f); }
+    if modelled && (force || cx.n_x[T_BLOB] < cx.budget_x[T_BLOB]) {
+        cx.n_x[T_BLOB] += 1;
+        // register_file(-1) takes the next file id: 1 on a cache of its own, 2 behind the one real file of the shared cache
+        let (fs, rf, vfid) = if shared { (format!("[({}, (5, {}))]", real_fid, flen), real_fid, real_fid + 1) } else { ("[]".to_string(), 0, 1) };
+        cx.terms[T_BLOB].push((format!("CBlob {} {} {} {} {} {} [{}] [{}]", PAGE_SIZE, pc_config(preset, capbytes).capacity, fs, rf, vfid, strategy % 3, mops.join("; "), mobs.join("; ")), cj));
+    }
 }
 
 fn gen_bops(r: &mut Rng, n: usize, shared: bool) -> Vec<BOp> {
@@ -625,7 +896,7 @@ fn gen_bops(r: &mut Rng, n: usize, shared: bool) -> Vec<BOp> {
         else if c < 87 { ops.push((5, 0, 0)); }
         else if c < 91 { ops.push((6, 0, 0)); }
         else if c < 94 { ops.push((7, r.below(3), 0)); }
-        else if shared { ops.push((8, r.below(3 * ps + 40), r.below(2 * ps))); }
+        else if shared { if r.chance(1, 4) { ops.push((9, r.below(3 * ps + 17), 1 + r.below(ps + 200))); } ops.push((8, r.below(3 * ps + 40), r.below(2 * ps))); }
         else { ops.push((1, r.below(16), 0)); }
     }
     ops
@@ -673,6 +944,11 @@ fn run_one(cx: &mut Ctx, c: &Value) {
     match c["cell"].as_str() {
         Some("lru") => lru_history(cx, u("cap") as usize, u("preset"), u("nkeys"), &parse_ops(&c["ops"]), true),
         Some("cmap") => cmap_history(cx, u("total") as usize, u("nshards") as usize, u("preset"), u("strategy"), u("nkeys"), &parse_ops(&c["ops"]), true),
+        Some("rr") => rr_history(cx, u("total") as usize, u("nshards") as usize, u("preset"), &parse_ops(&c["ops"]), true),
+        Some("ta") => {
+            let tops: Vec<(u64, Op)> = c["ops"].as_array().map(|a| a.iter().filter_map(|o| { let o = o.as_array()?; Some((o.get(0)?.as_u64()?, (o.get(1)?.as_u64()? as u8, o.get(2)?.as_u64()?, o.get(3)?.as_u64()?))) }).collect()).unwrap_or_default();
+            ta_history(cx, u("total") as usize, u("nshards") as usize, u("nthreads") as usize, &tops, true)
+        }
         Some("affinity") => affinity_case(cx, u("nshards") as usize, u("nthreads") as usize),
         Some("threads") => threads_case(cx, u("nshards") as usize, u("iters")),
         Some("pc") => {
@@ -680,7 +956,7 @@ fn run_one(cx: &mut Ctx, c: &Value) {
             if files.is_empty() { return; }
             pc_history(cx, c["single"].as_bool().unwrap_or(false), u("preset"), u("capbytes") as usize, &files, &parse_pops(&c["ops"]), true)
         }
-        Some("blob") => blob_history(cx, u("strategy"), u("preset"), u("capbytes") as usize, c["shared"].as_bool().unwrap_or(false), &parse_ops(&c["ops"])),
+        Some("blob") => blob_history(cx, u("strategy"), u("preset"), u("capbytes") as usize, c["shared"].as_bool().unwrap_or(false), &parse_ops(&c["ops"]), true),
         Some("fsa") => fsa_history(cx, u("max_states") as usize, u("strategy"), &parse_ops(&c["ops"])),
         _ => {}
     }
@@ -711,10 +987,11 @@ pub fn run(args: &Args) {
     std::fs::create_dir_all(&tmp).expect("temp dir");
     let th = args.thorough;
     let mut cx = Ctx {
-        sum: Summary::new("C17", "LruMap / ConcurrentLruMap: every get/put/remove/contains/clear/len history of <= 4 (quick) or 5 (thorough) operations over 3 keys at capacity 1 and 2, plus generated histories of up to 120 operations over cap+1..cap+3 keys at capacities 1..4 (eviction on most puts), 4 config presets, shard counts 1,2,4,8, three routing strategies, a recording eviction callback; each result, the callback invocations of each step, len and final retrievability compared with a time-stamped reference and with the Coq model. Page cache: files of 0, 1, PAGE-1, PAGE, PAGE+1, 2*PAGE+100, 3*PAGE+17, 5*PAGE bytes, cache of 0..3 pages and large, reads at offsets/lengths at page boundaries, inside the short last page, straddling, beyond EOF, with prefetch, invalidate_page/range, overwrite+invalidate, read_batch, read_with_prefetch; bytes compared with the file and (digest) with the Coq model. CachedBlobStore: put/get/remove/flush/prefetch/enable/disable histories for 3 write strategies with own and shared cache, compared with the wrapped store. non-trivial = more puts than capacity / history of >= 3 operations"),
+        sum: Summary::new("C17", "LruMap / ConcurrentLruMap: every get/put/remove/contains/clear/len history of <= 4 (quick) or 5 (thorough) operations over 3 keys at capacity 1 and 2, plus generated histories of up to 120 operations over cap+1..cap+3 keys at capacities 1..4 (eviction on most puts), 4 config presets, shard counts 1,2,4,8, three routing strategies, a recording eviction callback; each result, the callback invocations of each step, len and final retrievability compared with a time-stamped reference and with the Coq model. Page cache: files of 0, 1, PAGE-1, PAGE, PAGE+1, 2*PAGE+100, 3*PAGE+17, 5*PAGE bytes, cache of 0..3 pages and large, reads at offsets/lengths at page boundaries, inside the short last page, straddling, beyond EOF, with prefetch, invalidate_page/range, overwrite+invalidate, read_batch, read_with_prefetch; bytes compared with the file and (digest) with the Coq model. Also: the file rewritten without telling the cache and invalidate_range as a later call (same, covering, partial, other range or none), close_file, SingleLruPageCache with a used buffer and size(). CachedBlobStore: put/get/remove/flush/prefetch/enable/disable histories for 3 write strategies with own and shared cache (blobs of 0..2*PAGE+5 bytes, a real file read / rewritten through the shared cache), compared with the wrapped store and with the Coq model over a MemoryBlobStore model. RoundRobin: one call per operation against the counter model; ThreadAffinity: 1-4 worker threads, observed shard per thread, per-shard reference LRU. non-trivial = more puts than capacity / history of >= 3 operations"),
         shards: CoqShards::new(HEADER, 75),
         budget_lru: if th { 6000 } else { 700 }, budget_cmap: if th { 2000 } else { 250 }, budget_pc: if th { 1500 } else { 220 },
-        terms: [vec![], vec![], vec![]], n_lru: 0, n_cmap: 0, n_pc: 0, tmp: tmp.clone(), fileno: 0,
+        terms: vec![vec![]; 8], n_lru: 0, n_cmap: 0, n_pc: 0, tmp: tmp.clone(), fileno: 0,
+        budget_x: if th { [0, 0, 0, 600, 400, 600, 400, 200] } else { [0, 0, 0, 90, 50, 90, 50, 30] }, n_x: [0; 8],
     };
     let mut rng = Rng::new(args.seed);
     if let Some(f) = &args.replay {
@@ -758,6 +1035,25 @@ pub fn run(args: &Args) {
         if i < 1 { cx.sum.sample(json!({"cmap": {"total": total, "nshards": nshards, "ops": ops_json(&ops[..ops.len().min(10)])}})); }
         cmap_history(&mut cx, total, nshards, rng.below(3), strat, nkeys, &ops, false);
     }
+    // extension: round-robin and thread-affinity routing against the model of select_shard
+    for _ in 0..(if th { 2000 } else { 160 }) {
+        let nshards = *rng.pick(&[1usize, 2, 2, 4, 4, 8]);
+        let percap = rng.range(1, 3) as usize;
+        let nkeys = rng.range(2, 6);
+        let n = rng.range(4, 50) as usize;
+        let ops = gen_ops(&mut rng, nkeys, n);
+        rr_history(&mut cx, percap * nshards, nshards, rng.below(3), &ops, false);
+    }
+    rr_history(&mut cx, 8, 4, 0, &[(1, 13, 102), (0, 13, 0)], true);
+    for _ in 0..(if th { 400 } else { 45 }) {
+        let nshards = *rng.pick(&[1usize, 2, 4, 4, 8]);
+        let percap = rng.range(1, 3) as usize;
+        let nthreads = rng.range(1, 4) as usize;
+        let nkeys = rng.range(2, 5);
+        let n = rng.range(4, 40) as usize;
+        let tops: Vec<(u64, Op)> = gen_ops(&mut rng, nkeys, n).into_iter().map(|o| (rng.below(nthreads as u64), o)).collect();
+        ta_history(&mut cx, percap * nshards, nshards, nthreads, &tops, false);
+    }
     for n in [1usize, 2, 4, 8] { affinity_case(&mut cx, n, 4); }
     threads_case(&mut cx, 1, if th { 200_000 } else { 20_000 });
     threads_case(&mut cx, 2, if th { 200_000 } else { 20_000 });
@@ -774,7 +1070,7 @@ pub fn run(args: &Args) {
         let capbytes = *rng.pick(&[ps as usize, 2 * ps as usize, 2 * ps as usize, 3 * ps as usize, ps as usize - 1, 1, 64 * ps as usize, 0]);
         let n = rng.range(3, 14) as usize;
         let overwrite = rng.chance(1, 4);
-        let ops = gen_pops(&mut rng, &files, n, overwrite);
+        let ops = gen_pops(&mut rng, &files, n, overwrite, 0);
         if i < 1 { cx.sum.sample(json!({"page_cache": {"files": files.iter().map(|f| f.1).collect::<Vec<_>>(), "capbytes": capbytes, "ops": pops_json(&ops[..ops.len().min(8)])}})); }
         pc_history(&mut cx, rng.chance(1, 6), rng.below(4), capbytes, &files, &ops, false);
     }
@@ -801,6 +1097,31 @@ pub fn run(args: &Args) {
     }
     // the confirmed short-last-page witnesses, always
     pc_history(&mut cx, false, 0, 2 * ps as usize, &[(3, 2 * ps + 100)], &[(0, 0, 2 * ps, 200), (0, 0, 2 * ps - 92, 300), (0, 0, 0, 3 * ps)], true);
+    // extension: somebody else rewrites the file and the cache is told later (or not at all, or about another range),
+    // close_file, read_with_prefetch as one call, SingleLruPageCache with a used buffer and size()
+    let n_px = if th { 3000 } else { 320 };
+    for i in 0..n_px {
+        let single = i % 3 == 2;
+        let nf = if rng.chance(1, 3) { 2 } else { 1 };
+        let files: Vec<(u64, u64)> = (0..nf).map(|_| (rng.below(200), if rng.chance(1, 10) { rng.below(4 * ps) } else { *rng.pick(&sizes) })).collect();
+        // every page resident (nothing reloaded by accident) in two thirds of the histories
+        let capbytes = *rng.pick(&[64 * ps as usize, 64 * ps as usize, 32 * ps as usize, 16 * ps as usize, 2 * ps as usize, 3 * ps as usize, ps as usize, 0]);
+        let mut ops: Vec<POp> = vec![];
+        if rng.chance(2, 3) { for f in 0..nf { ops.push((0, f as u64, 0, files[f].1)); } }
+        let (n, ow) = (rng.range(3, 12) as usize, rng.chance(1, 3));
+        ops.extend(gen_pops(&mut rng, &files, n, ow, if single { 2 } else { 1 }));
+        if !single && !ops.iter().any(|o| o.0 == 7 || o.0 == 8) { ops.push((7, 0, rng.below(files[0].1 + 1), 1 + rng.below(200))); ops.push((0, 0, 0, files[0].1)); }
+        pc_history(&mut cx, single, rng.below(4), capbytes, &files, &ops, false);
+    }
+    // the stale-last-page shape: all pages resident, an unaligned rewrite over a page boundary, the invalidation of exactly that range
+    // as a separate call, then reads of the last page touched
+    for i in 0..(if th { 400 } else { 40 }) {
+        let flen = *rng.pick(&[2 * ps + 100, 3 * ps + 17, 5 * ps, 4 * ps - 1]);
+        let p = rng.range(1, flen / ps);
+        let (off, len) = match rng.below(3) { 0 => (p * ps - 1 - rng.below(60), 2 + rng.below(120)), 1 => (p * ps - 1, 2), _ => (p * ps - rng.range(1, ps - 1), ps + rng.below(ps)) };
+        let ops: Vec<POp> = vec![(0, 0, 0, flen), (7, 0, off, len), (3, 0, off, len), (0, 0, off.saturating_sub(3), len + 6), (5, 0, off + len - 1, 1), (8, 0, 0, 0), (0, 0, 0, flen), (8, 0, 0, 0)];
+        pc_history(&mut cx, i % 4 == 3, rng.below(4), 64 * ps as usize, &[(rng.below(200), flen)], &ops, i < 12);
+    }
     // cached blob store
     let n_blob = if th { 3000 } else { 300 };
     for _ in 0..n_blob {
@@ -808,7 +1129,7 @@ pub fn run(args: &Args) {
         let n = rng.range(3, 30) as usize;
         let ops = gen_bops(&mut rng, n, shared);
         let capbytes = *rng.pick(&[ps as usize, 2 * ps as usize, 16 * ps as usize]);
-        blob_history(&mut cx, rng.below(3), rng.below(4), capbytes, shared, &ops);
+        blob_history(&mut cx, rng.below(3), rng.below(4), capbytes, shared, &ops, false);
     }
     let n_fsa = if th { 2000 } else { 200 };
     for _ in 0..n_fsa {
@@ -820,6 +1141,9 @@ pub fn run(args: &Args) {
     cx.sum.dist_max("coq_cases_lru", cx.n_lru as u64);
     cx.sum.dist_max("coq_cases_cmap", cx.n_cmap as u64);
     cx.sum.dist_max("coq_cases_page_cache", cx.n_pc as u64);
+    for (t, name) in [(T_PX, "coq_cases_page_cache_rewrite_close"), (T_PS, "coq_cases_single_page_cache"), (T_BLOB, "coq_cases_cached_blob_store"), (T_RR, "coq_cases_round_robin"), (T_TA, "coq_cases_thread_affinity")] {
+        cx.sum.dist_max(name, cx.n_x[t] as u64);
+    }
     finish(&mut cx, args);
 }
 
